@@ -42,7 +42,13 @@ pub struct St {
     pub idle: u8,
     pub bad: bool,
     pub calls: u32,
+    /// input offset at which the current stream started (moves at every reset())
+    pub base: usize,
 }
+
+/// pseudo flush index: the action is CompressorOxide::reset() - the stream in progress (finished,
+/// abandoned, pending or in the error state) is dropped and a new one starts with the remaining input
+pub const RESET: u8 = 5;
 
 #[cfg(feature = "hooks")]
 fn comp_fp(c: &CompressorOxide, h: &mut H128) {
@@ -62,7 +68,7 @@ pub struct DefModel<'a> {
 
 impl<'a> DefModel<'a> {
     pub fn init(&self) -> St {
-        St { c: Box::new(self.cfg.make()), ip: 0, out: vec![], finish_seen: false, declared: None, ended: false, errored: false, idle: 0, bad: false, calls: 0 }
+        St { c: Box::new(self.cfg.make()), ip: 0, out: vec![], finish_seen: false, declared: None, ended: false, errored: false, idle: 0, bad: false, calls: 0, base: 0 }
     }
     fn rp(&self, path: &[Act]) -> Value {
         json!({"input_hex": hex(self.input), "input_name": self.name, "cfg": self.cfg.to_json(),
@@ -97,10 +103,25 @@ impl<'a> Model for DefModel<'a> {
                 }
             }
         }
+        out.push(Act { k: 0, room: 0, flush: RESET });
     }
 
     fn step(&self, s: &mut St, a: Act, path: &[Act]) -> bool {
         watchdog::pulse();
+        if a.flush == RESET {
+            // after reset() the object must behave like a new one: the model simply starts over
+            self.count("resets");
+            s.c.reset();
+            s.base = s.ip;
+            s.out.clear();
+            s.finish_seen = false;
+            s.declared = None;
+            s.ended = false;
+            s.errored = false;
+            s.calls += 1;
+            s.idle += 1;
+            return true;
+        }
         let flush = FLUSHES[a.flush as usize];
         let limit = s.declared.unwrap_or(self.input.len());
         let left = limit - s.ip;
@@ -189,9 +210,9 @@ impl<'a> Model for DefModel<'a> {
                 }
                 s.ended = true;
                 // everything delivered: the output is one complete stream for the consumed input
-                let want = &self.input[..s.declared.unwrap()];
-                if s.ip != want.len() {
-                    fail!("stream-end-input-left", "StreamEnd with {} of {} declared input bytes consumed", s.ip, want.len());
+                let want = &self.input[s.base..s.declared.unwrap()];
+                if s.ip != s.declared.unwrap() {
+                    fail!("stream-end-input-left", "StreamEnd with {} of {} declared input bytes consumed", s.ip - s.base, want.len());
                 }
                 let mut o = Opts::fmt(self.cfg.zlib);
                 o.strict_producer = true;
@@ -238,6 +259,7 @@ impl<'a> Model for DefModel<'a> {
         h.write_usize(s.out.len());
         h.write_u8(s.finish_seen as u8 | (s.ended as u8) << 1 | (s.errored as u8) << 2);
         h.write_usize(s.declared.unwrap_or(usize::MAX));
+        h.write_usize(s.base);
         h.write_u8(s.idle);
         Some(h.finish128())
     }
@@ -277,7 +299,7 @@ impl<'a> Model for DefModel<'a> {
             o.keep_tokens = false;
             let ok = code == 1 && {
                 let t = ref_inflate(&out, &o);
-                t.is_complete() && t.consumed == out.len() && t.out == self.input[..end]
+                t.is_complete() && t.consumed == out.len() && t.out == self.input[s.base..end]
             };
             if !ok {
                 self.viol("finish-loop", format!("repeating Finish with {}-byte buffers from this state: code {} after {} calls (bound {}), or the result does not decode to the input", room, code, calls, bound), path);
@@ -317,7 +339,7 @@ pub fn run(tier: &str) -> i32 {
     let cf = cfgs();
     let depth = if th { 4 } else { 3 };
     // work items: (input, cfg, first action) so one exploration is split 60 ways
-    let nact = FLUSHES.len() * CHUNKS.len() * ROOMS.len();
+    let nact = FLUSHES.len() * CHUNKS.len() * ROOMS.len() + 1;
     let mut items: Vec<(usize, usize, usize)> = vec![];
     for i in 0..=ins.len() {
         for c in 0..cf.len() {
@@ -366,10 +388,10 @@ pub fn run(tier: &str) -> i32 {
     rep.set("inputs", json!(ins.iter().map(|i| i.0.clone()).chain(std::iter::once(long.name.clone())).collect::<Vec<_>>()));
     rep.set("configurations", json!(cf.iter().map(|c| c.name()).collect::<Vec<_>>()));
     rep.set("protocol_events", json!(cov));
-    rep.set("explanation", json!("alphabet = chunk {0,1,rest} x room {0,1,5,large} x flush {None,Sync,Full,Finish,Partial} (60 actions) on the real CompressorOxide through deflate(); every action sequence to the stated depth (no dedup; states = nodes of the execution tree); per-transition protocol model: counts, empty output refused without state change (complete-state fingerprint), progress, Finish returns only at StreamEnd or with the buffer full, StreamEnd only after Finish and with a complete decodable stream, stability after the end, non-Finish after Finish is an error without side effects; at every cut state the Finish loop with 1/5/large-byte buffers must terminate with a stream that decodes to the declared input"));
+    rep.set("explanation", json!("alphabet = chunk {0,1,rest} x room {0,1,5,large} x flush {None,Sync,Full,Finish,Partial} (60 actions) plus CompressorOxide::reset() (the model starts over: a reset object must answer like a new one) on the real CompressorOxide through deflate(); every action sequence to the stated depth (no dedup; states = nodes of the execution tree); per-transition protocol model: counts, empty output refused without state change (complete-state fingerprint), progress, Finish returns only at StreamEnd or with the buffer full, StreamEnd only after Finish and with a complete decodable stream, stability after the end, non-Finish after Finish is an error without side effects; at every cut state the Finish loop with 1/5/large-byte buffers must terminate with a stream that decodes to the declared input"));
     rep.sample(json!({"input": "hello", "cfg": cf[0].name(), "schedule": [[1, 5, "Sync"], [0, 1, "Finish"], [-1, 200000, "Finish"]], "meaning": "[input bytes offered (-1 = rest), output room, flush]"}));
     let g = |k: &str| cov.get(k).copied().unwrap_or(0);
-    if total.transitions < 50_000 || g("stream_end") == 0 || g("non_finish_after_finish") == 0 || g("finish_loops") == 0 || g("empty_output_calls") == 0 {
+    if total.transitions < 50_000 || g("stream_end") == 0 || g("non_finish_after_finish") == 0 || g("finish_loops") == 0 || g("empty_output_calls") == 0 || g("resets") == 0 {
         println!("MACHINERY vacuous: transitions={} events={:?}", total.transitions, cov);
         rep.finish();
         return 2;
